@@ -67,11 +67,13 @@ class CompoundPixelRegion(PixelRegion):
         self.region1 = region1
         self.region2 = region2
         if meta is None:
-            self.meta = region1.meta
+            # a copy: the compound's own flags (e.g., include) must not
+            # change the first operand
+            self.meta = region1.meta.copy()
         else:
             self.meta = meta
         if visual is None:
-            self.visual = region1.visual
+            self.visual = region1.visual.copy()
         else:
             self.visual = visual
         self._operator = operator
@@ -259,11 +261,13 @@ class CompoundSkyRegion(SkyRegion):
         self.region1 = region1
         self.region2 = region2
         if meta is None:
-            self.meta = region1.meta
+            # a copy: the compound's own flags (e.g., include) must not
+            # change the first operand
+            self.meta = region1.meta.copy()
         else:
             self.meta = meta
         if visual is None:
-            self.visual = region1.visual
+            self.visual = region1.visual.copy()
         else:
             self.visual = visual
         self._operator = operator
